@@ -19,9 +19,7 @@ S = A.SECTOR
 
 # ----------------------------------------------------------------------------- images
 def akai_payload():
-    spec = {"parts": [
-        {"vols": [
-            {"name": "VOL1", "dir": [3], "files": [
+    VOL1_FILES = [
                 {"name": "FRAG", "n": 6000, "chain": [6, 4], "seq": 1},
                 {"name": "NEXT", "n": 5000, "chain": [5, 7], "seq": 2},
                 {"name": "PAD-L", "n": 4100, "chain": [9, 8], "seq": 3},
@@ -35,8 +33,13 @@ def akai_payload():
                 {"name": "LONG5", "n": 20000, "chain": [27, 25, 28, 26, 29], "seq": 11},
                 # a dual-mono pair: two directory entries naming ONE chain (the second entry is an alias of the first)
                 {"name": "DUAL-L", "n": 7000, "chain": [31, 30], "seq": 12},
-                {"name": "DUAL-R", "n": 7000, "chain": [31, 30], "seq": 12, "alias": True}]},
-            {"name": "VOL2", "dir": [12], "files": [{"name": "OTHER", "n": 300, "chain": [13], "seq": 5}]}]},
+                {"name": "DUAL-R", "n": 7000, "chain": [31, 30], "seq": 12, "alias": True}]
+    spec = {"parts": [
+        {"vols": [
+            {"name": "VOL1", "dir": [3], "files": VOL1_FILES},
+            {"name": "VOL2", "dir": [12], "files": [{"name": "OTHER", "n": 300, "chain": [13], "seq": 5}]},
+            # a second volume entry naming VOL1's directory (legal: the same start sector under two names)
+            {"name": "VOL3", "dir": [3], "files": VOL1_FILES, "alias": True}]},
         {"vols": [
             {"name": "VOLB", "dir": [4], "files": [
                 {"name": "BSMP", "n": 4500, "chain": [6, 5], "seq": 6},
@@ -360,6 +363,13 @@ def configs(quick):
             P(A1, ("read", 4096))]})
         out.append({"name": kind + ":one-chain-two-entries-stereo", "kind": kind, "parts": [
             {"path": list(DL), "path2": list(DR), "ops": [["next"]] * 4, "stepwise": True}, P(A2, ("read", 4096), ("read", 4096))]})
+    # two VOLUME entries naming one directory: the streams of A:/VOL1/X and A:/VOL3/X are two streams over the same sectors
+    for kind in ("akai", "akai2352"):
+        out.append({"name": kind + ":one-directory-two-volumes", "kind": kind, "parts": [
+            P(("A:", "VOL1", "FRAG"), ("read", 4096), ("read", 4096), ("read", S)), P(("A:", "VOL3", "FRAG"), ("read", 1000), ("seek", 3), ("read", 4096)),
+            P(A2, ("read", 4096))]})
+        out.append({"name": kind + ":one-directory-two-volumes-b", "kind": kind, "parts": [
+            P(("A:", "VOL3", "CONT"), ("read", 4096), ("read", 4096), ("read", 4096)), P(("A:", "VOL1", "CONT"), ("read", 4096), ("read", 4096), ("read", 4096))]})
     # a raw-sector image with one scratched sync pattern inside FRAG: whatever a reader makes of that sector, what the
     # OTHER streams deliver must not depend on whether / when FRAG walked into it
     kind = "akai2352_scratched"
